@@ -60,7 +60,7 @@ CHECKS["C05"] = dict(
     note=RSM_NOTE)
 CHECKS["C08"] = dict(
     category="model_checking", design_ref="5 C08", engine="tlc+smsim",
-    technique="TLA+ spec (RSM.tla) + TLC trace validation: state recovered from a snapshot = state saved, then same suffix applied next to the uninterrupted instance; compaction part: TLC evaluation (CompactionTrace) of restart observations of real NodeHosts; snapshot job protocol (a recover job never runs while a save or a stream of the same replica runs): SnapshotJobs.tla model-checked by TLC and evaluated on executions of the real node / workerPool (spsim)",
+    technique="TLA+ spec (RSM.tla) + TLC trace validation: state recovered from a snapshot = state saved, then same suffix applied next to the uninterrupted instance; compaction part: TLC evaluation (CompactionTrace) of restart observations of real NodeHosts; snapshot job protocol (a recover job never runs while a save or a stream of the same replica runs): SnapshotJobs.tla model-checked by TLC and evaluated on executions of the real node / workerPool (spsim); on-disk state machines: the OnDiskIndex a replica records for itself vs what its state machine persisted, and restart at the persisted state (odsim on the real rsm.StateMachine, OnDiskSnapshotTrace; SsRecord / Persisted audit of the host clusters in CompactionTrace)",
     text="At random cuts of seeded entry streams a snapshot is saved by a real rsm.StateMachine (regular and concurrent, with and without compression) and recovered into a fresh or a lagging instance, which then applies the rest of the stream next to the uninterrupted instance; TLC requires the recovered projected state (user data, sessions incl. LRU order, membership, index, term) to equal the saved one and every later state/result of the twin to equal the specification's fold of the log. Compaction part (second engine, nhsim snap scenarios on real NodeHosts: slow concurrent snapshot saves under continuous writes with compaction overhead 0-2, regular / concurrent / on-disk state machines, power loss at seeded file-system operations, restart): TLC (CompactionTrace over Pipeline.tla LogContinuesSnapshot) requires that what the log store returns at every restart continues the recorded snapshot without a gap, and that the restart does not panic; exports with compaction options are part of the scenarios. Third engine (nhsim member mode, on-disk state machines): members join while nothing is written (the streamed snapshot has Index > OnDiskIndex), apply one more non-update entry, take a snapshot of their own and restart - they must come back with the membership the rule table gives.",
     note=RSM_NOTE + " Snapshot catch-up of lagging followers is also exercised at protocol level by the rsim traces of C02 (CanCompact / InstallSnapshot conformance) and end to end by the nhsim scenarios of C16.")
 
